@@ -72,6 +72,14 @@ def pack (F : Fmt) (neg : Bool) (q : Nat) (e : Int) : Nat :=
   let mag := (e - F.emin).toNat * 2 ^ F.mbits + q
   if F.emax * 2 ^ F.mbits ≤ mag then infBits F neg else sgn F neg + mag
 
+/-- drop the low `k ≥ 1` bits of `m (+ ε)`, rounding to nearest, ties to even (`ε ∈ (0,1)` iff `sticky`) -/
+def roundShift (m k : Nat) (sticky : Bool) : Nat :=
+  let q := m >>> k
+  let r := m % 2 ^ k
+  let half := 2 ^ (k - 1)
+  let up : Bool := decide (half < r) || (r == half && (sticky || q % 2 == 1))
+  if up then q + 1 else q
+
 /-- round `(-1)^neg * (m + ε) * 2^e` to nearest, ties to even (`ε ∈ (0,1)` iff `sticky`; callers that set `sticky`
     supply at least `prec + 2` bits in `m`) -/
 def roundPack (F : Fmt) (neg : Bool) (m : Nat) (e : Int) (sticky : Bool := false) : Nat :=
@@ -79,13 +87,7 @@ def roundPack (F : Fmt) (neg : Bool) (m : Nat) (e : Int) (sticky : Bool := false
   else
     let s : Int := max ((bitLen m : Int) - (F.prec : Int)) (F.emin - e)
     if s ≤ 0 then pack F neg (m <<< s.natAbs) (e + s)
-    else
-      let k := s.toNat
-      let q := m >>> k
-      let r := m % 2 ^ k
-      let half := 2 ^ (k - 1)
-      let up : Bool := decide (half < r) || (r == half && (sticky || q % 2 == 1))
-      pack F neg (if up then q + 1 else q) (e + s)
+    else pack F neg (roundShift m s.toNat sticky) (e + s)
 
 /-- the finite value scaled to the common exponent `e ≤ ea` -/
 def scaled (neg : Bool) (m : Nat) (ea e : Int) : Int :=
